@@ -123,7 +123,7 @@ class Conc:
             if e[1] == "array":
                 return ("array", tuple(r(x) for x in e[3]))
             if e[1] == "closure":
-                raise Unknown(e)
+                return ("adt", "closure", e[2], tuple(r(x) for x in e[3]))
             return ("adt", e[1], e[2], tuple(r(x) for x in e[3]))
         if k == "call":
             return self._call(e, depth)
@@ -180,6 +180,27 @@ class Conc:
                 return max(lo, min(hi, r(args[0]) - r(args[1])))
         if name.endswith("Option::<T>::copied") or name.endswith("Option::<&T>::copied") or name.endswith("Option::<T>::cloned") or name.endswith("Option::<&T>::cloned"):
             return r(args[0])
+        for sfx in ("and_then", "map", "map_or", "map_or_else", "unwrap_or_else", "filter", "is_some_and", "or_else"):
+            if name.endswith("Option::<T>::" + sfx):
+                o = r(args[0])
+                if not is_opt(o):
+                    raise Unknown(e)
+                if sfx == "and_then":
+                    return NONE if o == NONE else self._apply(args[1], [o[1]], depth)
+                if sfx == "map":
+                    return NONE if o == NONE else some(self._apply(args[1], [o[1]], depth))
+                if sfx == "map_or":
+                    return r(args[1]) if o == NONE else self._apply(args[2], [o[1]], depth)
+                if sfx == "map_or_else":
+                    return self._apply(args[1], [], depth) if o == NONE else self._apply(args[2], [o[1]], depth)
+                if sfx == "unwrap_or_else":
+                    return self._apply(args[1], [], depth) if o == NONE else o[1]
+                if sfx == "or_else":
+                    return self._apply(args[1], [], depth) if o == NONE else o
+                if sfx == "filter":
+                    return o if o != NONE and self._apply(args[1], [o[1]], depth) else NONE
+                if sfx == "is_some_and":
+                    return o != NONE and bool(self._apply(args[1], [o[1]], depth))
         if name.endswith("Option::<T>::unwrap") or name.endswith("Option::<T>::expect"):
             o = r(args[0])
             if o == NONE:
@@ -218,6 +239,23 @@ class Conc:
             if name.endswith("PartialOrd>" + sfx) and len(args) == 2:
                 return fold_binop(op, r(args[0]), r(args[1]))
         raise Unknown(e)
+
+    def _apply(self, clo_e, argvals, depth):
+        """Call a crate-local closure value on concrete arguments (its body is run concretely; the
+        captured values are the fields of its environment)."""
+        clo = self.ev(clo_e, depth + 1)
+        if not (isinstance(clo, tuple) and clo[:2] == ("adt", "closure")) or not self.facts.has_body(clo[2]) or depth > 40:
+            raise Unknown(clo_e)
+        cb = self.facts.body(clo[2])
+        if cb.loops() or cb.arg_count != 1 + len(argvals):
+            raise Unknown(clo_e)
+        env = {("arg", 1): clo}
+        for i, v in enumerate(argvals):
+            env[("arg", 2 + i)] = v
+        v = Conc(self.facts, cb, env).run()
+        if v is None:
+            raise Unknown(("closure diverges", clo[2]))
+        return v
 
     # ---- control ------------------------------------------------------------------------------
     def run(self, max_steps=4000, want_result=True):
